@@ -6,7 +6,9 @@ from props.scopes_common import TRACE_KW, ScopesDriver, gen_trace
 
 SPEC = "Scopes"
 MANIFEST = dict(
-    text="Scopes.tla models per-task context triples (state environment, metrics scope, task group) with a frame "
+    text="(Also: block objects PREPARED in one place - ctx.scope(...) / ctx.updated(...) evaluated, the object kept - and "
+         "entered in another, a second entering of an async scope object refused: Prepare / EnterPrepared / ReEnter.) "
+         "Scopes.tla models per-task context triples (state environment, metrics scope, task group) with a frame "
          "stack; LexicalLookup is stated independently over the frames and the inherited snapshot (an environment-"
          "stack interpreter of the property in TLA+), Restored and Isolation as action properties. TLC enumerates all "
          "programs of nested async scopes / sync scopes / updates within depth and operation bounds with every "
